@@ -308,7 +308,7 @@ PROP = Property(
           "distinct = feature set."),
     strategy=strategy,
     run_case=run_case,
-    budgets={"quick": 8000, "thorough": 300000},
+    budgets={"quick": 8000, "thorough": 60000},
     calibrate=calibrate,
     assumptions=[
         "the roll-up file holds the exact sums of the per-mapping values",
